@@ -13,6 +13,11 @@ EMPHASIS = {
  (b) behaviour that depends on what the kernel returns at one specific call: an error code, a short count, EAGAIN/EINTR at exactly the k-th call, a descriptor number being reused by the kernel, spurious readiness;
  (c) an interaction between two library modules (e.g. timers with descriptors, events with tasks, signals with child-wait, pump with descriptors, work pool with timers);
  (d) a bug that needs at least three steps of history to set up the state in which it bites.''',
+ 5: '''IMPORTANT for this round (four earlier rounds already used the central functions, fallback and tear-down paths, unusual API sequences, module interactions, shared helpers, wrapping counters and second-use effects): aim for one of
+ (a) arithmetic and conversions on the way to or from the kernel: rounding of timeouts (nanoseconds to milliseconds, negative or huge differences, tv_nsec normalisation, 32-bit truncation of a 64-bit value), byte counts and offsets, event-mask translation between the library's bands and the kernel's bits;
+ (b) scale: more objects than some internal batch, array or buffer holds at once (many ready descriptors in one poll, many pending events, many timers due at the same instant, many children exiting together), so that a second pass, a resize or a truncation path is exercised;
+ (c) ordering and fairness promises between objects of the same kind or of different kinds inside one loop iteration (who runs first, who may starve whom, what a handler may observe about its siblings' state);
+ (d) return values, errno and documented side effects of API calls in their less common outcomes (a registration that reports failure, a second unregister-like call, a query function such as iv_*_registered / iv_now / iv_inited after a state change).''',
  4: '''IMPORTANT for this round (three earlier rounds already used the central functions of each mechanism, the obvious fallback and tear-down paths, unusual API sequences and module interactions): aim for one of
  (a) a change in shared infrastructure that this property silently depends on rather than in the module itself: the inline helpers and macros in the headers (iv_list.h, iv_avl.h, iv_private.h, iv_private_posix.h, mutex.h, spinlock.h, pthr.h, eventfd-linux.h), iv_tls.c, iv_main_posix.c, iv_time_posix.c, iv_task.c, iv_timer.c, iv_fd.c - whose effect shows up only through the behaviour this property describes;
  (b) exact boundary values of the quantified dimensions: populations or counts at which internal structures grow or shrink, exactly-full or exactly-empty buffers, equal keys or equal expiries, the first/last element, zero and maximum values, counters that wrap;
